@@ -217,6 +217,8 @@ class Interp:
         self.methods = methods.METHODS
         self.builtin_calls = methods.BUILTIN_CALLS
         self.text = None         # text model (for tokenizer / listing), installed by harnesses
+        self.call_counts = None  # name -> number of calls on this path, when a harness asks for it (C17)
+        self.macro_hooks = {}    # name -> callable(interp, node, env, mod) for println!/eprintln! (process model of C14-M)
 
     # ------------------------------------------------------------------------------------
     # name resolution
@@ -416,6 +418,9 @@ class Interp:
         ex = self.ex
         name = fn["name"]
         ex.functions_executed.add(mod.name + "::" + name)
+        cc = self.call_counts
+        if cc is not None:
+            cc[name] = cc.get(name, 0) + 1
         ex.fuel_left -= 1
         if ex.fuel_left < 0:
             raise FuelExhausted()
@@ -1463,6 +1468,9 @@ class Interp:
             if not self.truth(a):
                 self.panic("assertion failed", e, mod, "assert")
             return UNIT
+        h = self.macro_hooks.get(name)
+        if h is not None:
+            return h(self, e, env, mod)
         raise InternalError("macro %s!" % name)
 
     def lookup_capture(self, nm, env, mod):
